@@ -301,6 +301,7 @@ Theorem st_insert_f_spec ms m av e v0 f : MInvP P ms m -> f_pan f = false ->
   let r := snd (fst (st_insert_f ms av e v0 f)) in
   let f' := snd (st_insert_f ms av e v0 f) in
   cx_stuck (fx f') = cx_stuck (fx f) /\ same_shape ms ms' /\
+  (f_arm f = O -> f_arm f' = O /\ f_pan f' = false) /\
   if av_alive av e then
     match NM.find id m with
     | Some old =>
@@ -329,15 +330,17 @@ Proof.
       destruct (w_access_mut ms (fst e) true (USwap (tnorm ms v0)) (fx f)) as [[ms1 o] c1]. cbn [fst snd upd_map] in *.
       destruct X as [-> [X2 [-> [X4 [X5 X6]]]]].
       destruct (f_drop_fields (f_with f (fx f)) old) as [A [B [_ [D E]]]]. cbn [f_with fx f_arm f_pan] in *.
-      rewrite Hp in E. cbn [orb] in E. rewrite A, B, E. auto 10.
+      rewrite Hp in E. cbn [orb] in E. rewrite A, B, E.
+      split; [reflexivity|]. split; [assumption|]. split; [intros Ha; rewrite D, Ha; auto|]. auto 10.
     + pose proof (keys_find_none _ _ _ (MP_keys _ _ _ HM) Hmem) as Hf. rewrite Hf.
       destruct (ms_event_fields ms (EInserted (fst e))) as [E1 [E2 [E3 [E4 [E5 E6]]]]].
       set (ms1 := ms_event ms (EInserted (fst e))) in *. rewrite E2.
       pose proof (u_insert_f_spec (ms_raw ms) m (fst e) (tnorm ms v0) f (MP_rel _ _ _ HM) Hf (tnorm_okP P ms m v0 HM) Hp) as X.
       pose proof (u_insert_f_null (ms_raw ms) (fst e) (tnorm ms v0) f) as Hnull.
       destruct (u_insert_f (ms_raw ms) (fst e) (tnorm ms v0) f) as [r f']. cbn [fst snd] in *.
-      destruct X as [[ds [X1 [X2 [X3 _]]]] [X4 [X5 [X6 X7]]]].
+      destruct X as [[ds [X1 [X2 [X3 X3']]]] [X4 [X5 [X6 X7]]]].
       split; [assumption|]. split; [unfold same_shape; cbn [ms_set ms_wrap ms_emit ms_readers ms_unit]; auto|].
+      split; [intros Ha; rewrite X3', X3, Ha; cbn [Nat.sub]; split; [reflexivity|destruct (length ds); reflexivity]|].
       split; [reflexivity|]. split; [exists ds; auto|].
       assert (forall mask mm, keys_ok mask mm -> rrelP P r mm ->
                 (forall i t, NM.find i mm = Some t -> NM.find i m = Some t \/ t = tnorm ms v0) ->
@@ -353,7 +356,7 @@ Proof.
         apply Hinv; [rewrite E1; apply (MP_keys _ _ _ HM)|apply X6; assumption|]. intros i t Hi. left. assumption.
       * unfold own. cbn [ms_set ms_raw]. exact X7.
   - cbn [fst snd]. destruct (f_drop_fields f (tnorm ms v0)) as [A [B [_ [D E]]]]. rewrite Hp in E. cbn [orb] in E.
-    split; [assumption|]. split; [apply same_shape_refl|]. auto.
+    split; [assumption|]. split; [apply same_shape_refl|]. split; [intros Ha; rewrite D, E, Ha; auto|]. auto.
 Qed.
 
 Theorem st_remove_f_spec ms m av e f : MInvP P ms m -> f_pan f = false ->
